@@ -1420,6 +1420,20 @@ func (d *Data) ServeHTTP(uuid dvid.UUID, ctx *datastore.VersionedCtx, w http.Res
 				server.BadRequest(w, r, err)
 				return
 			}
+			requestSize := int64(1)
+			for dim := uint8(0); dim < 3; dim++ {
+				n := int64(subvol.Size().Value(dim))
+				if n < 1 {
+					server.BadRequest(w, r, "mask size must be positive in every dimension, got %s", subvol.Size())
+					return
+				}
+				requestSize *= n // each factor is below 2^31 and the product is checked at every step
+				if requestSize > server.MaxDataRequest {
+					server.BadRequest(w, r, "requested mask (%s voxels) exceeds this DVID server's set limit (%d)",
+						subvol.Size(), server.MaxDataRequest)
+					return
+				}
+			}
 			data, err := d.GetMask(ctx, subvol)
 			if err != nil {
 				server.BadRequest(w, r, err)
